@@ -20,10 +20,10 @@ MD_RULE = ("; md level: md::mess_ratio (uncached body) against Model/Md.v -- the
            "binary32 literals against the library's; MessOK (non-NaN, non-negative) asserted on every real answer")
 
 
-def detect_run(focus, nq, nt, bigq=0, bigt=6, maxq=6000, maxt=60000):
+def detect_run(focus, nq, nt, bigq=0, bigt=6, maxq=6000, maxt=60000, midq=0, midt=3):
     return {"level": "detect", "replayable": True,
-            "args_quick": ["--focus", focus, "--n", str(nq), "--max-len", str(maxq), "--big", str(bigq)],
-            "args_thorough": ["--focus", focus, "--n", str(nt), "--max-len", str(maxt), "--big", str(bigt)]}
+            "args_quick": ["--focus", focus, "--n", str(nq), "--max-len", str(maxq), "--big", str(bigq), "--mid", str(midq)],
+            "args_thorough": ["--focus", focus, "--n", str(nt), "--max-len", str(maxt), "--big", str(bigt), "--mid", str(midt)]}
 
 
 def detect_search(focus):
@@ -34,9 +34,11 @@ PROPS = {
     "C18": {
         "module": "PropC18",
         "theorems": ["C18_names", "C18_canonical_idempotent", "C18_unreportable"],
-        "runs": [NAMES_RUN],
+        "runs": [NAMES_RUN, detect_run("C18", 260, 4000)],
         "search": {"level": "names", "args": []},
-        "rule": "finite and exhaustive: every supported name, every label of the codec crate in 8 spellings each, "
+        "rule": "detection cases (mark- and declaration-heavy stream): for every match and every listed alternative the reported name must canonicalise "
+                "to itself, be found by lookup-by-name, be accepted by the include list, have an alias list, and the PUBLIC decode helper given "
+                "that name on the input minus the name's own mark must reproduce the exposed text; names level: finite and exhaustive: every supported name, every label of the codec crate in 8 spellings each, "
                 "all 41x41 similarity pairs, every mark, every range boundary +-1, every alias of every reportable name "
                 "decoded on all 256 single bytes and 40 random strings; non-trivial = label inputs the canonicaliser resolves",
         "assumptions": ["codec identity is identity of the codec crate's encoding constant reached by encoding_from_whatwg_label"],
@@ -52,7 +54,7 @@ PROPS["C01"] = {
                  "C01_no_single_byte_table_holds_feff", "C01_decodes_with_the_crates_tables",
                  "C01_decodes_pipeline", "C01_lazy_contract_holds_of_the_pipeline", "C01_supported_single_byte_names_have_tables"],
     "model_targets": ["Model/Decode.vo"],
-    "runs": [detect_run("C01", 260, 4000, bigq=2, bigt=12),
+    "runs": [detect_run("C01", 260, 4000, bigq=3, bigt=12, midq=1, midt=6),
              {"level": "decode", "args_quick": ["--n", "600"], "args_thorough": ["--n", "20000"]}, NAMES_RUN],
     "search": detect_search("C01"),
     "rule": "detection cases = fixed witnesses + corpus files + generated (corpus slices, texts re-encoded into any supported "
@@ -414,7 +416,7 @@ def projection(pid, lines):
         t = _tok(l)
         if t[0] in ("M", "S"):
             # M enc chaos bom coh thash tlen nsub
-            if pid == "C01":
+            if pid in ("C01", "C18"):
                 out.append((t[0], t[1], t[5], t[6]))
             elif pid == "C04":
                 out.append((t[0], t[1], t[2]))
@@ -428,7 +430,7 @@ def projection(pid, lines):
             # A cohbits mbu chaos% coh% mpl langs ranges suitable
             if pid == "C04":
                 out.append(("A", t[1], t[3], t[4]))
-            elif pid in ("C01", "C05", "C07"):
+            elif pid in ("C01", "C05", "C07", "C18"):
                 out.append(("A", t[8]))
             else:
                 out.append(tuple(t))
